@@ -1,7 +1,7 @@
 CONSTANTS
   MinLen = 20
   MaxLen = 140
-  Letters = {97}
+  Letters = {233}
 SPECIFICATION Spec
 INVARIANTS Emit
 CHECK_DEADLOCK FALSE
